@@ -346,24 +346,25 @@ static std::string run(std::vector<std::string> const &w)
 		try {
 			for(size_t i=2;i<w.size();i++) {
 				std::string const &o=w[i];
-				if(!out.empty()) out+=' ';
-				if(o=="n") out+="n="+std::to_string(a.next_chunk_size());
-				else if(o=="e") out+=a.eof() ? "e=1" : "e=0";
-				else if(o=="s") { std::string s=a.read_chunk_as_string(); out+="s="+hx(s.data(),s.size()); }
+				std::string r;
+				if(o=="n") r="n="+std::to_string(a.next_chunk_size());
+				else if(o=="e") r=a.eof() ? "e=1" : "e=0";
+				else if(o=="s") { std::string s=a.read_chunk_as_string(); r="s="+hx(s.data(),s.size()); }
 				else if(o[0]=='r') {
+					if(o.size()<2 || o[1]<'0' || o[1]>'9') return "bad-op";
 					size_t len=strtoull(o.c_str()+1,0,10);
 					if(len>(1u<<24)) return "bad-op";
 					char *buf=new char[len];          // heap exact destination
 					try { a.read_chunk(buf,len); } catch(...) { delete [] buf; throw; }
-					out+="r="+hx(buf,len);
+					r="r="+hx(buf,len);
 					delete [] buf;
 				}
 				else return "bad-op";
+				out+=r; out+=' ';
 			}
-			if(!out.empty()) out+=' ';
 			out+="@"+std::to_string(a.ptr_);
 		}
-		catch(cppcms::archive_error const &e) { if(!out.empty()) out+=' '; out+=err_kind(e.what()); out+=" @"+std::to_string(a.ptr_); }
+		catch(cppcms::archive_error const &e) { out+=err_kind(e.what()); out+=" @"+std::to_string(a.ptr_); }
 		return out;
 	}
 	if(op=="wr") {
